@@ -90,13 +90,17 @@ class Gen:
         self.loop_devs = []  # declaration lines to put at the top of the main-loop body
         self.loop_only = set()  # devices that exist only inside the main loop
         self.in_main_now = False
+        self.extra_weights = {}
 
     # ---------------------------------------------------------------- helpers
     def d(self, strategy):
         return self.draw(strategy)
 
     def choice(self, seq):
-        return self.d(st.sampled_from(list(seq)))
+        # index draw, not sampled_from: sampled_from derives its label from hash(element), which is id-based for the
+        # lambdas used here and would make generation depend on memory layout
+        seq = list(seq)
+        return seq[self.d(st.integers(0, len(seq) - 1))]
 
     def chance(self, p):
         return self.d(st.floats(0, 1)) < p
@@ -335,7 +339,7 @@ class Gen:
             kinds += ["if"] * 3 + ["for"] * 2 + ["while"] * 2
         if loop_depth > 0:
             kinds += ["break_if", "continue_if"]
-        for k, w in self.p.weights.items():
+        for k, w in {**self.p.weights, **self.extra_weights}.items():
             kinds += [k] * w
         k = self.choice(kinds)
         return getattr(self, "s_" + k)(depth, loop_depth, in_main)
@@ -666,7 +670,7 @@ class Gen:
             nodes = [("s", ln) for ln in DEVICE_HEADER.strip().split("\n")] + nodes
             dev_nodes = self.declare_devices()
             nodes.extend(dev_nodes)
-            self.p.weights = dict(self.p.weights, device=6)
+            self.extra_weights = {"device": 6}
         if "btn" in self.devs and self.chance(0.5) and False:
             pass
         for i in range(self.d(st.integers(0, self.p.helpers))):
